@@ -948,3 +948,23 @@ Proof.
     rewrite E1, D1. cbn [app_res]. exists (l1 ++ l2). split; [reflexivity|]. rewrite map_app. f_equal. f_equal.
     apply map_ext. intros o. unfold ren_orf, rbZ, rbZ_g. rewrite !rb_to_dash. reflexivity.
 Qed.
+
+(* ---- custom three-letter codon sets: frames count residues, ORFs hold a multiple of three residues ---------------------------------- *)
+Theorem custom_is_orf_residues g sw pw s f a e :
+  gap_safe g = true -> words_ok g sw = true -> words_ok g pw = true -> codons3 sw = true -> codons3 pw = true ->
+  is_orf_x g sw pw s f a e ->
+  rbZ_g g (strand_str s f) a mod 3 = frame_key f /\
+  (rbZ_g g (strand_str s f) e - rbZ_g g (strand_str s f) a) mod 3 = 0.
+Proof.
+  intros S W1 W2 K1 K2 (Ha & He & _). destruct (words_ok_facts g sw W1) as [NE1 C1]. destruct (words_ok_facts g pw W2) as [NE2 C2].
+  rewrite starts_x_transfer in Ha by assumption. rewrite stops_x_transfer in He by assumption.
+  unfold starts_w in Ha. apply in_map_iff in Ha. destruct Ha as [[i1 e1] [E1 H1]]. cbn [fst] in E1.
+  unfold stops_w in He. apply in_map_iff in He. destruct He as [[i2 e2] [E2 H2]]. cbn [snd] in E2.
+  apply hits_residues in H1; [|exact NE1|apply codons3_words; exact K1|eapply clean_letters_ok; eauto].
+  apply hits_residues in H2; [|exact NE2|apply codons3_words; exact K2|eapply clean_letters_ok; eauto].
+  destruct H1 as [M1 _]. destruct H2 as [M2 L2]. subst a e. unfold rbZ_g. rewrite !Nat2Z.id.
+  rewrite strand_str_to_dash in M1, M2, L2 by exact S. rewrite !rb_to_dash in M1, M2, L2. rewrite ?rb_to_dash in L2.
+  split; [exact M1|]. rewrite L2.
+  replace (Z.of_nat (rb_g g (strand_str s f) i2 + 3)) with (Z.of_nat (rb_g g (strand_str s f) i2) + 3) by lia.
+  eapply mod3_diff; eauto.
+Qed.
